@@ -8,7 +8,7 @@
     Clauses of one family are grouped in one theorem (one [Print Assumptions] per theorem). *)
 From Coq Require Import Reals ZArith List Permutation Sorted.
 From Coquelicot Require Import Coquelicot.
-From LP Require Import Num NumR C07_Model C07_Proofs_Cont C07_Proofs_ErfBound C07_Proofs_Disc C07_Proofs_Chi C07_Proofs_Ex C07_Proofs_Kde C07_Proofs_Coh C07_Proofs_Int.
+From LP Require Import Num NumR C07_Model C07_Proofs_Cont C07_Proofs_ErfBound C07_Proofs_Disc C07_Proofs_Chi C07_Proofs_Ex C07_Proofs_Kde C07_Proofs_Coh C07_Proofs_Int Gen_C07_Formulas C07_GenTie.
 Import ListNotations.
 Local Open Scope R_scope.
 
@@ -610,3 +610,43 @@ Proof.
           (conj (fun c t t' => perform_kde_shift c data xmin xmax bw t t') (fun v => kde_bandwidth_no_spread v data)))))).
 Qed.
 Print Assumptions C07_kde_table_accepted_and_offset.
+
+(** ** T-tie: the definitions regenerated from src/Statistics.cpp on every run are the model the theorems above are about.
+    [Gen_C07_Formulas.v] is written by tools/cxx2gallina.py from clang's AST of the current source before this file is
+    rebuilt.  For every arithmetic satisfying the literal laws ([LitLaws]: a literal is the quotient num/den it spells,
+    0 and 1 are the ring constants) each regenerated function is the hand-written model function, for all arguments and
+    whatever the functions of Special_Functions.cpp it calls return.  The reals satisfy the laws ([ROps_LitLaws], part of
+    the statement: non-vacuity), so every theorem of this file about [pdf_uniform ROps], [cdf_gauss ROps], ... is a theorem
+    about the term generated from the code.  A changed formula, comparison, guard, literal or operand order in one of the
+    fourteen C++ functions breaks this theorem before any case is run. *)
+Theorem C07_generated_closed_forms_are_model :
+  LitLaws ROps /\
+  forall (T : Type) (Ops : NumOps T), LitLaws Ops ->
+  forall (pi_c : T) (gammaQ gammaP inv_gammaQ : T -> T -> res T) (gammaLn inv_erf : T -> res T) (binom : Z -> Z -> res T),
+  let G := fun (X : Type) (g : T -> (T -> T -> res T) -> (T -> T -> res T) -> (T -> T -> res T) -> (T -> res T) -> (T -> res T) -> (Z -> Z -> res T) -> X) =>
+             g pi_c gammaQ gammaP inv_gammaQ gammaLn inv_erf binom in
+  (forall x a b, G _ (g_PDF_Uniform Ops) x a b = pdf_uniform Ops x a b) /\
+  (forall x a b, G _ (g_CDF_Uniform Ops) x a b = cdf_uniform Ops x a b) /\
+  (forall x mu sigma, G _ (g_PDF_Gauss Ops) x mu sigma = pdf_gauss Ops pi_c x mu sigma) /\
+  (forall x mu sigma, G _ (g_CDF_Gauss Ops) x mu sigma = cdf_gauss Ops x mu sigma) /\
+  (forall p mu sigma, G _ (g_Quantile_Gauss Ops) p mu sigma = quantile_gauss Ops inv_erf p mu sigma) /\
+  (forall trials p x, G _ (g_PMF_Binomial Ops) trials p x = pmf_binomial Ops binom trials p x) /\
+  (forall mu n, (0 <= n)%Z -> G _ (g_CDF_Poisson Ops) mu n = cdf_poisson Ops gammaQ mu n) /\
+  (forall n c, G _ (g_Inv_CDF_Poisson Ops) n c = inv_cdf_poisson Ops inv_gammaQ n c) /\
+  (forall x dof, G _ (g_PDF_Chi_Square Ops) x dof = pdf_chi_square Ops gammaLn x dof) /\
+  (forall x dof, G _ (g_CDF_Chi_Square Ops) x dof = cdf_chi_square Ops gammaP x dof) /\
+  (forall x mean, G _ (g_PDF_Exponential Ops) x mean = pdf_exponential Ops x mean) /\
+  (forall x mean, G _ (g_CDF_Exponential Ops) x mean = cdf_exponential Ops x mean) /\
+  (forall x a, G _ (g_PDF_Maxwell_Boltzmann Ops) x a = pdf_maxwell_boltzmann Ops pi_c x a) /\
+  (forall x a, G _ (g_CDF_Maxwell_Boltzmann Ops) x a = cdf_maxwell_boltzmann Ops pi_c x a).
+Proof.
+  exact (conj ROps_LitLaws (fun T Ops LL pi_c gQ gP igQ gL ie bn =>
+    conj (tie_PDF_Uniform Ops LL pi_c gQ gP igQ gL ie bn) (conj (tie_CDF_Uniform Ops LL pi_c gQ gP igQ gL ie bn)
+    (conj (tie_PDF_Gauss Ops LL pi_c gQ gP igQ gL ie bn) (conj (tie_CDF_Gauss Ops LL pi_c gQ gP igQ gL ie bn)
+    (conj (tie_Quantile_Gauss Ops LL pi_c gQ gP igQ gL ie bn) (conj (tie_PMF_Binomial Ops LL pi_c gQ gP igQ gL ie bn)
+    (conj (tie_CDF_Poisson Ops LL pi_c gQ gP igQ gL ie bn) (conj (tie_Inv_CDF_Poisson Ops LL pi_c gQ gP igQ gL ie bn)
+    (conj (tie_PDF_Chi_Square Ops LL pi_c gQ gP igQ gL ie bn) (conj (tie_CDF_Chi_Square Ops LL pi_c gQ gP igQ gL ie bn)
+    (conj (tie_PDF_Exponential Ops LL pi_c gQ gP igQ gL ie bn) (conj (tie_CDF_Exponential Ops LL pi_c gQ gP igQ gL ie bn)
+    (conj (tie_PDF_Maxwell_Boltzmann Ops LL pi_c gQ gP igQ gL ie bn) (tie_CDF_Maxwell_Boltzmann Ops LL pi_c gQ gP igQ gL ie bn))))))))))))))).
+Qed.
+Print Assumptions C07_generated_closed_forms_are_model.
